@@ -1,4 +1,5 @@
 import networkx as nx
+from types import MappingProxyType
 from flowpaths.utils import graphutils
 import flowpaths.utils as utils
 from flowpaths.abstractsourcesinkgraph import AbstractSourceSinkGraph
@@ -58,7 +59,9 @@ class stDAG(AbstractSourceSinkGraph):
             for node in self.topological_order_rev:
                 for v in self.successors(node):
                     self._reachable_nodes_from[node] |= self._reachable_nodes_from[v]
-        
+            # Freeze: the cached sets are handed out, a caller must not be able to corrupt later answers
+            self._reachable_nodes_from = MappingProxyType({node: frozenset(s) for node, s in self._reachable_nodes_from.items()})
+
         return self._reachable_nodes_from
     
     @property
@@ -71,7 +74,9 @@ class stDAG(AbstractSourceSinkGraph):
                 for v in self.successors(node):
                     self._reachable_edges_from[node] |= self._reachable_edges_from[v]
                     self._reachable_edges_from[node] |= {(node, v)}
-        
+            # Freeze: the cached sets are handed out, a caller must not be able to corrupt later answers
+            self._reachable_edges_from = MappingProxyType({node: frozenset(s) for node, s in self._reachable_edges_from.items()})
+
         return self._reachable_edges_from
 
     @property
@@ -83,6 +88,9 @@ class stDAG(AbstractSourceSinkGraph):
             for node in self.topological_order:
                 for v in self.predecessors(node):
                     self._nodes_reaching[node] |= self._nodes_reaching[v]
+
+            # Freeze: the cached sets are handed out, a caller must not be able to corrupt later answers
+            self._nodes_reaching = MappingProxyType({node: frozenset(s) for node, s in self._nodes_reaching.items()})
 
         return self._nodes_reaching
 
@@ -96,6 +104,9 @@ class stDAG(AbstractSourceSinkGraph):
                 for v in self.predecessors(node):
                     self._reachable_edges_rev_from[node] |= self._reachable_edges_rev_from[v]
                     self._reachable_edges_rev_from[node] |= {(v, node)}
+
+            # Freeze: the cached sets are handed out, a caller must not be able to corrupt later answers
+            self._reachable_edges_rev_from = MappingProxyType({node: frozenset(s) for node, s in self._reachable_edges_rev_from.items()})
 
         return self._reachable_edges_rev_from
 
